@@ -42,8 +42,8 @@ TRUSTED_BASE = [
     "the Python original on threshold inputs",
     "hand model lean/PdfVerif/Model/Layout.lean and lean/PdfVerif/Model/Plane.lean (tree correspondence at every scale)",
     "exact rationals stand for Python floats; thresholds are only generated for dyadic parameters",
-    "id()-dependent tie-break of group_textboxes is not modelled: cases with equal minimal distances are compared "
-    "without the merge-order-dependent part (flag `tie`)",
+    "tie-break of group_textboxes = creation numbers (fix 0d18780) = `HEntry.le` of the model, the order C09_scale is "
+    "proved for: cases with equal minimal distances (flag `tie`) are compared completely and get no scale exemption",
 ]
 ASSUMPTIONS = [
     "coordinates and LAParams are exact rationals (dyadic); for non-dyadic parameters (the default 0.1) float "
@@ -757,9 +757,9 @@ class TieOracle:
         ctx = self.ctx
         for case, f, ks in self.pending:
             if f.tags.get("check") == "scale" and self.has_tie(case, ks):
-                ctx.branch("scale:difference-under-id-tie")
-                if f.tags.get("weak_same"):
-                    continue
+                # no exemption any more: since fix 0d18780 ties are broken by creation numbers (= `HEntry.le`,
+                # the order `C09_scale` is proved for), so a scale difference under a tie is a violation too
+                ctx.branch("scale:difference-under-tie")
             # shrink over the items
             if f.tags.get("check") == "scale":
                 k = f.tags["k"]
@@ -767,7 +767,7 @@ class TieOracle:
                 def still(items):
                     c2 = dict(case, items=items)
                     f2 = scale_check(ctx, c2, C8.Batch(ctx), [k])
-                    return f2 is not None and f2.tags.get("check") == "scale" and not self.has_tie(c2, [k])
+                    return f2 is not None and f2.tags.get("check") == "scale"
                 if still(case["items"]):
                     items = C.ddmin(list(case["items"]), still, max_tests=120)
                     c2 = dict(case, items=items)
@@ -878,8 +878,7 @@ def run_documents(ctx: C.Ctx) -> None:
             ctx.disagree("doc", {"la": la, "items": items}, got, out[:200])
             continue
         if "tie" in parts[2]:
-            ctx.branch("doc:tie")
-            continue
+            ctx.branch("doc:tie")          # decided like every other case (tie-break = creation numbers)
         exp = text_from_dump(parts[0], texts)
         if exp != got:
             ctx.disagree("doc.extract_text", {"la": la, "items": items}, got, exp)
